@@ -164,6 +164,7 @@ func (rn *runner) replay(path string) {
 		switch toks[0] {
 		case "togo":
 			rn.caseTogo(v.rec, target, "stream:replay")
+			rn.caseMix(v.rec, target, 24, "stream:replay") // the order of filling is random: repeat on fresh records
 		case "echo":
 			rn.caseEcho(v.rec, target, "stream:replay")
 		case "mix":
